@@ -4276,6 +4276,10 @@ spmatrix_sub(PyObject *self, PyObject *other)
     return spmatrix_add_helper(other, self, 0);
     }
   else if (SpMatrix_Check(self) && !SpMatrix_Check(other)) {
+    if (!Matrix_Check(other)) {
+      Py_INCREF(Py_NotImplemented);
+      return Py_NotImplemented;
+    }
     if ((ret = spmatrix_add_helper(self, other, 0))) {
       int n = MAT_LGT(other), id = MAT_ID(ret);
       scal[id](&n, &MinusOne[id], MAT_BUF(ret), &intOne);
